@@ -10,6 +10,8 @@
    in-memory sqlite trust DB, calls the real SignerGen.Generate at wall-clock now (every boundary
    >= 2 days away), lets every returned signer sign a message and real trust.Verifiers (bound to the
    signer's ISD-AS / to another one) verify it through the real FetchingProvider.
+   For a seed-dependent selection of signers a verifier with its real cache first meets the signer
+   while its trust engine has no chain for it and then again once the chain is stored (vlate).
 3. TLC (spec/TrustSignerTrace.tla) judges every generated signer (key, chain, InGrace, Expiration),
    the refusal to sign after expiry and the verification of what was signed.
 """
